@@ -15,7 +15,7 @@ def check(ctx):
     # negative control: the fallback comparing > instead of >= breaks "scheme none exactly when not smaller"
     ctx.model("MC_Xorb", "MC_Xorb_fallback.cfg", expect_violation="Invs", coverage=False)
     t = os.path.join(w, "rt.ndjson")
-    s = vlib.xv("xorb", mode="rt", seed=ctx.seed, k=8 if thorough else 2, bigxorb=8192 if thorough else 0, out=t, timeout=1500)
+    s = vlib.xv("xorb", mode="rt", seed=ctx.seed, k=8 if thorough else 2, bigxorb=8192 if thorough else 2000, out=t, timeout=1500)
     ctx.sample({"recorded_trace_prefix": s["sample"]})
     xc.validate(ctx, t, "rt", timeout=3000)
     ctx.notes["driver_summary"] = {k: v for k, v in s.items() if k != "sample"}
